@@ -7,7 +7,7 @@ and the SAC temperature loss together with their per-sample derivatives and
 with differentiable-dependency sets.  TLC checks the relational clauses on the
 model (weights are constants, unclipped gradient at ratio 1, zero gradient when
 clipped on the favoured side, per-sample value term, direction of the
-temperature move ...) and refutes seven named deviations.  TLC-generated
+temperature move ...) and refutes eight named deviations.  TLC-generated
 vectors (network OUTPUTS chosen by TLC, expected objective / coefficients
 printed by TLC) are realised with table-lookup stub modules that have one
 parameter per sample (harness/stubs.py, harness/stubs_actor.py) and replayed
@@ -28,6 +28,20 @@ gets coefficient 0.  The real update_ppo(epochs=j), j = 1..K, is run from
 identical entry parameters and compared with the model's state after every
 epoch; with the repository's own networks update_ppo(epochs=K) is compared with
 the model's schedule executed step by step with the real ppo_loss.
+
+The temperature clause is stated at EVERY value of the parameter (kind "templa" of
+Actor.tla): log_alpha = a + k ln 2 over the float32 range in which alpha is a
+normal number (0, 2.5, 4, 10, 50, 80, -12, -21, -30, -60, -80, k ln 2 ...).  Loss,
+gradient w.r.t. log_alpha and the SGD step are linear forms  c * Exp(log_alpha)
+with TLC's exact coefficient c (device D3: Exp at the float32 parameter is the
+named constant); TLC proves that the gradient coefficient is non-zero with the
+sign of (estimate - target) at every parameter value, and that alpha is strictly
+increasing in log_alpha; it refutes the clipped parametrisation
+alpha = exp(clip(log_alpha, -20, 2)).  The binding compares value / gradient /
+step in counted ulps, alpha = 2^k for log_alpha = k ln 2 and the strict order of
+the alphas on float32 ordinals (D4).  spec/ActorTemp.tla drives ONE live
+EntropyCoefficient (+ SGD) and ONE live EntropyControl (its own Adam) through
+histories of 3-4 updates with the estimate below / at / above the target.
 """
 from __future__ import annotations
 
@@ -44,23 +58,29 @@ from .. import exact, stubs, tlc
 LEVEL = "model_checking"
 MANIFEST = dict(
     category="model_checking",
-    text="Actor.tla transcribes every actor objective of rl_blox (policy-gradient pseudo-loss with the REINFORCE / actor-critic / A2C weights, PPO clipped surrogate + value term + entropy bonus, deterministic policy gradient of DDPG / TD7 / MR.Q, SAC actor loss, SAC temperature loss) on exact rationals together with its per-sample derivative and the set of parameter groups an update can move; TLC proves on the model, for every batch of the lattice, that the weights are constants, that the PPO gradient at ratio 1 is the unclipped one and vanishes for samples clipped on the side their advantage favours, that the emitted derivatives are the derivatives of the objective (exact central differences), that every objective is a mean of per-sample terms, and that alpha rises exactly when the entropy estimate is below target; it refutes seven named deviations. Every TLC-generated vector (exhaustive small lattice + seeded random walks over the full lattice, batch sizes 1-4) is realised with table-lookup stub modules that have one parameter per sample and replayed into the REAL functions; objective values and jax gradients w.r.t. actor, critic / value function / baseline / Q / alpha parameters are compared with TLC's numbers exactly (ulp bounds only where exp/log, 0.01, tanh or a mean over 3 rows make float32 inexact), with critic outputs of shape (N,) and (N,1), and again through one SGD(lr=1) step of the real update functions (only the intended parameters move). ActorEpochs.tla specifies update_ppo with 1-4 epochs as a state machine (advantages, returns and reference log-probabilities fixed at entry; epoch k = one SGD step of actor and critic on Actor.tla's objective at theta_k with that reference); TLC proves on every schedule of the lattice that the reference stays the entry one, that the first epoch has the unclipped gradient, and that in epoch k a sample whose ratio pi_theta_k / pi_theta_0 is clipped on the side its advantage favours has policy-gradient coefficient 0 and does not move, and refutes the deviation 'reference re-read from the updated actor in every epoch'; the real update_ppo(epochs=j) is run for j = 1..K from identical entry parameters (per-sample table policy, SGD with dyadic learning rates) and log-probabilities, critic predictions, entropy parameters and the returned objective are compared with the model's state after EVERY epoch - exactly where the model's state is an exact rational (all samples clipped or at ratio 1), within a counted ulp budget where a step was taken at ratio exp(d). Function-level properties over all inputs cannot be exhausted, so model checking of the documented arithmetic plus exact replay is the right level.",
+    text="Actor.tla transcribes every actor objective of rl_blox (policy-gradient pseudo-loss with the REINFORCE / actor-critic / A2C weights, PPO clipped surrogate + value term + entropy bonus, deterministic policy gradient of DDPG / TD7 / MR.Q, SAC actor loss, SAC temperature loss) on exact rationals together with its per-sample derivative and the set of parameter groups an update can move; TLC proves on the model, for every batch of the lattice, that the weights are constants, that the PPO gradient at ratio 1 is the unclipped one and vanishes for samples clipped on the side their advantage favours, that the emitted derivatives are the derivatives of the objective (exact central differences), that every objective is a mean of per-sample terms, and that alpha rises exactly when the entropy estimate is below target; it refutes eight named deviations. Every TLC-generated vector (exhaustive small lattice + seeded random walks over the full lattice, batch sizes 1-4) is realised with table-lookup stub modules that have one parameter per sample and replayed into the REAL functions; objective values and jax gradients w.r.t. actor, critic / value function / baseline / Q / alpha parameters are compared with TLC's numbers exactly (ulp bounds only where exp/log, 0.01, tanh or a mean over 3 rows make float32 inexact), with critic outputs of shape (N,) and (N,1), and again through one SGD(lr=1) step of the real update functions (only the intended parameters move). ActorEpochs.tla specifies update_ppo with 1-4 epochs as a state machine (advantages, returns and reference log-probabilities fixed at entry; epoch k = one SGD step of actor and critic on Actor.tla's objective at theta_k with that reference); TLC proves on every schedule of the lattice that the reference stays the entry one, that the first epoch has the unclipped gradient, and that in epoch k a sample whose ratio pi_theta_k / pi_theta_0 is clipped on the side its advantage favours has policy-gradient coefficient 0 and does not move, and refutes the deviation 'reference re-read from the updated actor in every epoch'; the real update_ppo(epochs=j) is run for j = 1..K from identical entry parameters (per-sample table policy, SGD with dyadic learning rates) and log-probabilities, critic predictions, entropy parameters and the returned objective are compared with the model's state after EVERY epoch - exactly where the model's state is an exact rational (all samples clipped or at ratio 1), within a counted ulp budget where a step was taken at ratio exp(d). The temperature clause is decided at every value of the parameter: kind templa takes log_alpha = a + k ln 2 from a lattice that spans the float32 range in which alpha is a normal number (0, 2.5, 4, 10, 50, 80, -12, -21, -30, -60, -80, k ln 2 for k = 3 ... +-115); loss, gradient w.r.t. log_alpha and the step of an SGD optimiser are the linear forms c * exp(log_alpha) with the exact coefficient c printed by TLC; TLC proves that the gradient coefficient is non-zero with the sign of (estimate - target) whenever the two differ, that it does not depend on the parameter value, and that alpha is strictly increasing in log_alpha, and refutes the deviation alpha = exp(clip(log_alpha, -20, 2)); the real EntropyCoefficient / sac_exploration_loss / _update_entropy_coefficient are compared in counted ulps, alpha = 2^k and the strict order of the alphas over the lattice on float32 ordinals. ActorTemp.tla drives one live EntropyCoefficient (+ SGD) and one live EntropyControl (its own Adam) through histories of 3-4 updates with the estimate below / at / above target and compares the direction (and, for SGD, the size) of every update and alpha = exp(log_alpha) after it. The full lattice also carries extreme inputs for the other objectives (policy-gradient weights +-4096, log pi = -64, Q = +-4096 for DDPG / SAC, SAC alpha = 1024, a saturated tanh activation +-20 for MR.Q). Function-level properties over all inputs cannot be exhausted, so model checking of the documented arithmetic plus exact replay is the right level.",
     note="bounded dyadic lattices, batch size <= 4; network forward passes are inputs (stubs); the repository's heads (softmax, Gaussian, tanh-Gaussian, deterministic tanh, SALE actor) only for gradient support and sign; GAE inside update_ppo only with all rows terminated; update_ppo over epochs: per-sample table policy only (no shared actor parameters), plain SGD, default clip range 0.2, <= 4 epochs, batch size <= 4; update_critic_and_policy (MR.Q) not driven; trusted: harness/stubs.py, harness/stubs_actor.py realisation, Exact.tla, TLC",
-    technique="TLA+ spec + TLC (exhaustive invariants on the model, deviation canaries, vector generation); replay of TLC-generated vectors into the real actor losses / policy-gradient functions / actor update steps with stub nnx modules, exact value and gradient comparison; ActorEpochs.tla: state machine of update_ppo over epochs, TLC-emitted schedules (region of every sample per epoch, step coefficients, critic states) replayed into the real update_ppo(epochs=1..K) and compared after every epoch",
+    technique="TLA+ spec + TLC (exhaustive invariants on the model, deviation canaries, vector generation); replay of TLC-generated vectors into the real actor losses / policy-gradient functions / actor update steps with stub nnx modules, exact value and gradient comparison; ActorEpochs.tla: state machine of update_ppo over epochs, TLC-emitted schedules (region of every sample per epoch, step coefficients, critic states) replayed into the real update_ppo(epochs=1..K) and compared after every epoch; ActorTemp.tla: state machine of the temperature parameter over a history of updates, TLC-emitted histories replayed into one live EntropyCoefficient / EntropyControl",
 )
 
 INVS = [
     "TypeOK", "WeightsConstant", "GradSupport", "PGLinear", "PGAscent", "PPOUnclippedAtOne", "PPOClippedZero", "PPOPessimistic",
     "PPODerivative", "PerSample", "PermutationInvariant", "DPGAscent", "SlopeActive", "SACDerivative", "MRQDerivative", "TempDirection",
+    "TempLaDirection", "AlphaMonotone",
 ]
-ALL_KINDS = ["pg", "a2c", "reinforce", "ac", "ppo", "ppoupd", "dpg", "td7", "mrq", "sac", "temp"]
+ALL_KINDS = ["pg", "a2c", "reinforce", "ac", "ppo", "ppoupd", "dpg", "td7", "mrq", "sac", "temp", "templa"]
+TEMP = ("temp", "templa")  # templa: the temperature loss as a function of its PARAMETER log_alpha = a + k ln 2, over the float32 range
 PG = ("pg", "a2c", "reinforce", "ac")
 FNAME = {
     "pg": "stochastic_policy_gradient_pseudo_loss", "a2c": "a2c_policy_gradient", "reinforce": "reinforce_gradient",
     "ac": "actor_critic_policy_gradient", "ppo": "ppo_loss", "ppoupd": "update_ppo", "dpg": "deterministic_policy_gradient_loss",
     "td7": "deterministic_policy_gradient_loss_sale", "mrq": "mrq_policy_loss", "sac": "sac_actor_loss", "temp": "sac_exploration_loss",
+    "templa": "sac_exploration_loss",
 }
-UPD = {"dpg": "ddpg_update_actor", "td7": "td7_update_actor", "sac": "sac_update_actor", "ppoupd": "update_ppo", "temp": "_update_entropy_coefficient"}
+UPD = {"dpg": "ddpg_update_actor", "td7": "td7_update_actor", "sac": "sac_update_actor", "ppoupd": "update_ppo", "temp": "_update_entropy_coefficient",
+       "templa": "_update_entropy_coefficient"}
+ALPHA_KEY = "EntropyCoefficient:alpha"  # the parametrisation alpha = exp(log_alpha)
+LN2 = math.log(2.0)  # device D3: the float64 value of the named constant ln 2
 # kinds whose objective reads a critic / value function: replayed with output shape (N,1) and (N,)
 HAS_CRITIC = ("reinforce", "ac", "ppo", "ppoupd", "dpg", "td7", "mrq", "sac")
 BROADCAST_KEY = "ppo_loss:value_term_broadcast"
@@ -175,6 +195,27 @@ class Case:
 def rng_pair(r):
     """TLC interval <<lo, hi>> of rationals -> (float lo, float hi)."""
     return fl(r[0]), fl(r[1])
+
+
+def la_value(la) -> np.float32:
+    """Actor.tla's parameter value [a, k] = a + k ln 2 as the float32 that is fed: a must be a float32, ln 2 is the named constant."""
+    a, k = fq(la["a"]), int(la["k"])
+    if not exact.is_exact32(a):
+        raise tlc.MachineryError(f"lattice value log_alpha = {a} is not a float32")
+    return np.float32(float(a) + k * LN2)
+
+
+def exp_atom(x) -> float:
+    """D3: float64 value of the named constant Exp(x) at the float32 parameter x."""
+    return math.exp(float(np.float32(x)))
+
+
+def within_ulps32(got, want64, ulps) -> bool:
+    """float32 `got` within `ulps` float32 spacings of the real number want64 (overflow: the float32 infinity)."""
+    g = float(got)
+    if want64 > float(np.finfo(np.float32).max):
+        return g == float("inf") or abs(g - want64) <= ulps * spacing32(float(np.finfo(np.float32).max))
+    return math.isfinite(g) and abs(g - want64) <= ulps * spacing32(want64)
 
 
 # ----------------------------------------------------------------- realisation: TLC's network outputs -> stub parameters
@@ -399,6 +440,27 @@ def realise(vec, fill_seed, vshape="n1") -> Case:
         ga = fl(e["galpha"])
         c.exp_grad[(1, "log_alpha")] = (np.array([ga]), np.array([ga]))
         c.aux["ref_mag"] = {(1, "log_alpha"): np.array([c.mag])}  # a mean of signed terms
+    elif k == "templa":
+        S = n + 1
+        act = fill(rng, (S, 1))
+        cv = fill(rng, (1,))
+        pol = policy_tables(S, act[:n] * 0, cv, [0.0] * n)
+        pol["actions"] = act
+        for i, r in enumerate(rows):
+            pol["lp"][i] = np.float32(fl(r["lp"]) - float(act[i, 0]) * float(cv[0]))
+        la = la_value(par["la"])  # the float32 parameter log_alpha = a + k ln 2
+        ax = exp_atom(la)  # D3: the named constant Exp(log_alpha) at the parameter actually fed, float64
+        c.leaves = [pol, {"log_alpha": np.array([la], dtype=np.float32)}]
+        c.groups = ["actor", "alpha"]
+        c.arrays = dict(obs=oh(np.arange(n), S), tgt=np.float32(fl(par["tgt"])))
+        # loss and gradient are the linear forms  coefficient * Exp(log_alpha)  with TLC's exact coefficients
+        c.exp_out["loss"] = fq(e["loss"]) * Fraction(ax)
+        c.mag = fl(e["mag"]) * ax
+        c.ulps = c.gulps = ULP_INEXACT
+        ga = float(fq(e["galpha"]) * Fraction(ax))
+        c.exp_grad[(1, "log_alpha")] = (np.array([ga]), np.array([ga]))
+        c.aux["ref_mag"] = {(1, "log_alpha"): np.array([c.mag])}  # a mean of signed terms
+        c.aux.update(la=float(la), atom=ax, lr=math.ldexp(1.0, int(e["lrexp"])), expulp=int(e["expulp"]))
     else:  # pragma: no cover
         raise tlc.MachineryError(f"unknown kind {k}")
     known = set(c.groups) | set(c.aux.get("shared", {}))
@@ -453,7 +515,7 @@ def build_modules(c: Case):
         ]
     if k == "sac":
         return [pol(lv[0]), stubs.make_double_q(LT(lv[1]["q1.kernel"]), LT(lv[1]["q2.kernel"]))]
-    if k == "temp":
+    if k in TEMP:
         import jax.numpy as jnp
         from rl_blox.algorithm.sac import EntropyCoefficient
 
@@ -526,6 +588,10 @@ def make_call(kind, static, flat):
         from rl_blox.algorithm.sac import sac_exploration_loss
 
         return (lambda m, a: (sac_exploration_loss(m[0], a["tgt"], jax.random.key(0), a["obs"], m[1]), {}, None)), False
+    if kind == "templa":  # also the parametrisation itself: alpha = EntropyCoefficient.__call__()
+        from rl_blox.algorithm.sac import sac_exploration_loss
+
+        return (lambda m, a: (sac_exploration_loss(m[0], a["tgt"], jax.random.key(0), a["obs"], m[1]), {"alpha": m[1]()}, None)), False
     raise AssertionError(kind)
 
 
@@ -626,6 +692,12 @@ def run_update(c: Case):
         loss, alpha = _update_entropy_coefficient(sgd(mods[1]), mods[0], a["tgt"], jax.random.key(0), a["obs"], mods[1])
         outs["loss"] = loss
         outs["alpha"] = alpha
+    elif k == "templa":  # plain SGD with TLC's step size 2^lrexp: the step of log_alpha is visible at every parameter value
+        from rl_blox.algorithm.sac import _update_entropy_coefficient
+
+        loss, alpha = _update_entropy_coefficient(_sgd(mods[1], c.aux["lr"]), mods[0], a["tgt"], jax.random.key(0), a["obs"], mods[1])
+        outs["loss"] = loss
+        outs["alpha"] = alpha
     else:
         raise AssertionError(k)
     outs = {kk: np.asarray(v) for kk, v in outs.items()}
@@ -644,6 +716,12 @@ def _ctx(c: Case):
 
 def rinfo(c: Case, level):
     return {"vec": c.vec, "fill_seed": list(c.fill_seed), "vshape": c.vshape, "level": level}
+
+
+def _spec(c: Case, x):
+    if c.kind == "templa":  # a linear form: TLC's coefficient times the named constant Exp(log_alpha)
+        return f"{fq(c.vec['exp']['loss'])} x exp(log_alpha = {c.aux['la']!r}) = {fl(x)!r}"
+    return f"{fq(x)} = {fl(x)!r}"
 
 
 def group_name(c: Case, ref):
@@ -669,7 +747,7 @@ def check_fn(c: Case, out, grads, rep, stats):
         if not val_ok(out[name], x, c.ulps, c.mag):
             ok = False
             key = f"{fname}:{name}"
-            text = f"{fname}: {name} = {float(out[name])!r}, specification {fq(x)} = {fl(x)!r}"
+            text = f"{fname}: {name} = {float(out[name])!r}, specification {_spec(c, x)}"
             if c.kind == "ppo" and name == "loss" and fq(e["val_bc"]) != fq(e["val"]) and val_ok(out[name], e["loss_bc"], max(c.ulps, 2), c.mag):
                 key = BROADCAST_KEY
                 bc_loss = True
@@ -700,7 +778,66 @@ def check_fn(c: Case, out, grads, rep, stats):
                 text += "; it is the gradient of the broadcast value term mean_ij (ret_j - v_i)^2: every prediction is pulled towards the MEAN return"
             rep.violation(key, f"{text} {_ctx(c)}", rinfo(c, "fn"))
     stats["bc"] += int(bc_loss)
+    if c.kind == "templa":
+        ok = check_alpha(c, out, rep, stats) and ok
     return ok
+
+
+def check_alpha(c: Case, out, rep, stats):
+    """The parametrisation itself at the parameter value of the vector: alpha = Exp(log_alpha) (TLC's ulp count for the float32
+    exponential), alpha = 2^k on float32 ordinals where log_alpha = k ln 2; records (TLC's position of alpha in the ordered
+    lattice, float32 ordinal of alpha) for the order predicate 'alpha is strictly increasing in log_alpha'."""
+    e = c.vec["exp"]
+    if "alpha" not in out or np.size(out["alpha"]) != 1:
+        rep.violation(f"{ALPHA_KEY}:shape", f"EntropyCoefficient() returned shape {np.shape(out.get('alpha'))} for a parameter of shape (1,) {_ctx(c)}", rinfo(c, "fn"))
+        return False
+    a32 = np.asarray(out["alpha"], dtype=np.float32).reshape(-1)[0]
+    la, ax = c.aux["la"], c.aux["atom"]
+    ok = True
+    if not within_ulps32(a32, ax, c.aux["expulp"]):
+        ok = False
+        rep.violation(ALPHA_KEY, f"EntropyCoefficient with log_alpha = {la!r} (= {fq(c.vec['par']['la']['a'])} + {c.vec['par']['la']['k']} ln 2) returns alpha = {float(a32)!r}; "
+                      f"specification alpha = exp(log_alpha) = {ax!r} (within {c.aux['expulp']} float32 steps) {_ctx(c)}", rinfo(c, "fn"))
+    ao = list(e["aord"])
+    if ao and math.isfinite(float(a32)):
+        stats["alpha_pow2"] = stats.get("alpha_pow2", 0) + 1
+        o = exact.ord32(a32)
+        if not (int(ao[0]) <= o <= int(ao[1])) and ok:
+            ok = False
+            rep.violation(ALPHA_KEY, f"EntropyCoefficient with log_alpha = float32({c.vec['par']['la']['k']} ln 2) = {la!r} returns alpha = {float(a32)!r} (float32 ordinal {o}); "
+                          f"specification alpha = 2^{c.vec['par']['la']['k']}: ordinal in [{ao[0]}, {ao[1]}] {_ctx(c)}", rinfo(c, "fn"))
+    if math.isfinite(float(a32)):
+        rec = stats.setdefault("alpha_ranks", {}).setdefault(int(e["arank"]), {"rank": int(e["rank"]), "lo": None, "hi": None, "la": la, "vec": c.vec, "fill_seed": list(c.fill_seed)})
+        o = exact.ord32(a32)
+        rec["lo"] = o if rec["lo"] is None else min(rec["lo"], o)
+        rec["hi"] = o if rec["hi"] is None else max(rec["hi"], o)
+    return ok
+
+
+def check_alpha_order(rep, stats):
+    """Order predicate on float32 ordinals: TLC's positions of alpha (arank; equal to the position of log_alpha by AlphaMonotone)
+    are strictly increasing => the float32 ordinals of the alphas the code returns are strictly increasing."""
+    recs = stats.get("alpha_ranks", {})
+    order = sorted(recs)
+    bad = 0
+    for r1, r2 in zip(order[:-1], order[1:]):
+        a, b = recs[r1], recs[r2]
+        if recs[r1]["rank"] >= recs[r2]["rank"]:
+            raise tlc.MachineryError("Actor.tla: positions of alpha and of log_alpha disagree (AlphaMonotone)")
+        if not a["hi"] < b["lo"]:
+            bad += 1
+            if bad <= 2:
+                rep.violation(f"{ALPHA_KEY}:monotone", f"alpha is not strictly increasing in log_alpha: log_alpha = {a['la']!r} gives alpha with float32 ordinal {a['hi']} "
+                              f"(= {float(ord_to_float(a['hi']))!r}), the larger log_alpha = {b['la']!r} gives ordinal {b['lo']} (= {float(ord_to_float(b['lo']))!r})",
+                              {"vec": b["vec"], "vec_lo": a["vec"], "fill_seed": b["fill_seed"], "vshape": "n1", "level": "order"})
+    return len(order)
+
+
+def ord_to_float(o):
+    """D4, the inverse of exact.ord32."""
+    o = int(o)
+    v = np.array([abs(o)], dtype=np.int32).view(np.float32)[0]
+    return np.float32(-v) if o < 0 else v
 
 
 def _mrq_bad(got, lo, hi, c: Case):
@@ -721,10 +858,11 @@ def check_update(c: Case, outs, moved, rep, stats):
     vec = c.vec
     e = vec["exp"]
     ok = True
-    if not val_ok(outs["loss"], e["loss"], c.ulps, c.mag):
+    lr = float(c.aux.get("lr", 1.0))  # step size of the SGD optimiser (a power of two; 1 except for templa)
+    if not val_ok(outs["loss"], c.exp_out["loss"], c.ulps, c.mag):
         ok = False
         key = f"{uname}:loss"
-        text = f"{uname}: returned objective {float(outs['loss'])!r}, specification {fq(e['loss'])}"
+        text = f"{uname}: returned objective {float(outs['loss'])!r}, specification {_spec(c, c.exp_out['loss'])}"
         if c.kind == "ppoupd" and fq(e["val_bc"]) != fq(e["val"]) and val_ok(outs["loss"], e["loss_bc"], max(c.ulps, 2), c.mag):
             key = BROADCAST_KEY
             text += f"; it equals the objective with the broadcast value term mean_ij (ret_j - v_i)^2 = {fq(e['val_bc'])} (per-sample: {fq(e['val'])})"
@@ -740,15 +878,15 @@ def check_update(c: Case, outs, moved, rep, stats):
             if (mi, kk) not in c.exp_grad:
                 continue
             lo, hi = c.exp_grad[(mi, kk)]
-            lo = np.asarray(lo, dtype=np.float64).reshape(old.shape)
-            hi = np.asarray(hi, dtype=np.float64).reshape(old.shape)
+            lo = np.asarray(lo, dtype=np.float64).reshape(old.shape) * lr
+            hi = np.asarray(hi, dtype=np.float64).reshape(old.shape) * lr
             d = old.astype(np.float64) - np.asarray(new, dtype=np.float64)  # = lr * gradient used by the step
             chk = ~np.isnan(lo)
             # new = fl(old - g): one rounding at the magnitude of the parameter, plus the gradient's own budget
             m = np.maximum(np.abs(np.where(chk, lo, 0)), np.abs(np.where(chk, hi, 0)))
             gm = c.aux["gmag"] if "gmag" in c.aux and (mi, kk) == (0, "policy_net.kernel") else m
             if (mi, kk) in c.aux.get("ref_mag", {}) and c.gulps:
-                gm = np.maximum(gm, np.asarray(c.aux["ref_mag"][(mi, kk)], dtype=np.float64).reshape(old.shape))
+                gm = np.maximum(gm, np.asarray(c.aux["ref_mag"][(mi, kk)], dtype=np.float64).reshape(old.shape) * lr)
             gu = c.aux.get("ref_ulps", {}).get((mi, kk), c.gulps)
             tol = gu * np.spacing(np.where(gm > 0, gm, 1e-30).astype(np.float32)).astype(np.float64)
             inex = (gu > 0) & (gm > 0)
@@ -758,7 +896,7 @@ def check_update(c: Case, outs, moved, rep, stats):
                 ok = False
                 ix = tuple(int(v) for v in np.argwhere(bad)[0])
                 key = f"{uname}:step:{gname}"
-                text = f"{uname}: SGD(lr=1) moved {gname}.{kk}{list(ix)} by {-float(d[ix])!r}, specification: minus the gradient in [{float(lo[ix])!r}, {float(hi[ix])!r}]"
+                text = f"{uname}: SGD(lr={lr!r}) moved {gname}.{kk}{list(ix)} by {-float(d[ix])!r}, specification: minus lr x the gradient, in [{float(lo[ix])!r}, {float(hi[ix])!r}]"
                 if c.kind == "ppoupd" and (mi, kk) == (1, "kernel"):
                     gb = c.aux["gv_bc"].reshape(old.shape)
                     tb = max(c.gulps, 2) * np.spacing(np.maximum(np.abs(gb), 1e-30).astype(np.float32)).astype(np.float64) + 2 * np.spacing((np.abs(old) + np.abs(gb)).astype(np.float32)).astype(np.float64)
@@ -766,6 +904,21 @@ def check_update(c: Case, outs, moved, rep, stats):
                         key = BROADCAST_KEY
                         text += "; the step follows the gradient of the broadcast value term (every prediction pulled towards the MEAN return)"
                 rep.violation(key, f"{text} {_ctx(c)}", rinfo(c, "upd"))
+    if c.kind == "templa":  # direction and the value law at the moved parameter, at every parameter value of the lattice
+        la_old, la_new = moved[(1, "log_alpha")]
+        lo_, ln_ = float(la_old[0]), float(np.asarray(la_new).reshape(-1)[0])
+        dirn = "up" if ln_ > lo_ else ("down" if ln_ < lo_ else "stay")
+        a_new = float(np.asarray(outs["alpha"]).reshape(-1)[0])
+        a_old = c.aux["atom"]
+        dira = "up" if a_new > a_old and not within_ulps32(a_new, a_old, c.aux["expulp"]) else ("down" if a_new < a_old and not within_ulps32(a_new, a_old, c.aux["expulp"]) else "stay")
+        undecided = fq(e["galpha"]) == 0 and c.n not in (1, 2, 4)  # mean over 3 rows: the terms cancel up to rounding only
+        if not undecided and (dirn != e["dir"] or dira != e["dir"]):
+            ok = False
+            rep.violation(f"{uname}:direction", f"{uname}: log_alpha = {lo_!r} (alpha = {a_old!r}), entropy estimate {fq(e['est'])}, target {fq(vec['par']['tgt'])}: alpha must go {e['dir']}; "
+                          f"one SGD(lr=2^{e['lrexp']}) step moved log_alpha {dirn} ({lo_!r} -> {ln_!r}) and returned alpha {a_new!r} ({dira}) {_ctx(c)}", rinfo(c, "upd"))
+        if math.isfinite(ln_) and abs(ln_) < 87.0 and not within_ulps32(a_new, exp_atom(ln_), c.aux["expulp"]):
+            ok = False
+            rep.violation(ALPHA_KEY, f"{uname} returned alpha = {a_new!r} with the updated parameter log_alpha = {ln_!r}; specification alpha = exp(log_alpha) = {exp_atom(ln_)!r} {_ctx(c)}", rinfo(c, "upd"))
     if c.kind == "temp":
         alpha0 = float(np.exp(np.float64(c.leaves[1]["log_alpha"][0])))
         la_old, la_new = moved[(1, "log_alpha")]
@@ -1061,7 +1214,10 @@ def real_heads(rep, vectors, stats, scale=1):
 
     # --- SAC actor and temperature with the tanh-Gaussian head
     box2 = gym.spaces.Box(low=np.array([-2.0], dtype=np.float32), high=np.array([2.0], dtype=np.float32))
-    for vec in pick("sac", lambda v: all(fq(r["q1"]) != fq(r["q2"]) for r in v["rows"]), cap=12):
+    # (entropy coefficients <= 1 and moderate Q-values: the absolute noise threshold below is sized for them; the huge values of the full
+    #  lattice are decided exactly with the stub policy)
+    for vec in pick("sac", lambda v: all(fq(r["q1"]) != fq(r["q2"]) for r in v["rows"]) and fq(v["par"]["alpha"]) <= 1
+                    and all(abs(fq(r[qq])) <= 3 for r in v["rows"] for qq in ("q1", "q2")), cap=12):
         n = vec["n"]
         S = n + 1
         par = vec["par"]
@@ -1086,7 +1242,7 @@ def real_heads(rep, vectors, stats, scale=1):
     # direction table of the specification: sign(target - entropy estimate) -> direction of alpha
     table = {}
     for v in vectors:
-        if v["kind"] == "temp":
+        if v["kind"] in TEMP:
             if table.setdefault(v["exp"]["cmp"], v["exp"]["dir"]) != v["exp"]["dir"]:
                 raise tlc.MachineryError("specification: direction of the temperature move is not a function of sign(target - estimate)")
     if set(table) != {-1, 0, 1}:
@@ -1118,11 +1274,17 @@ def real_heads(rep, vectors, stats, scale=1):
         # gradient sign of the loss itself w.r.t. log_alpha
         from rl_blox.algorithm.sac import EntropyCoefficient
 
-        am = EntropyCoefficient(jnp.zeros(1))
-        G = grads_of(lambda ms: sac_exploration_loss(ms[0], ec.target_entropy, key, obs, ms[1]), [policy, am], 1)[1]
-        gd = "up" if float(G["log_alpha"][0]) < 0 else ("down" if float(G["log_alpha"][0]) > 0 else "stay")
-        if gd != table[cmp]:
-            report("sac_exploration_loss:real:direction", f"sac_exploration_loss (tanh-Gaussian head): d loss / d log_alpha = {float(G['log_alpha'][0])!r} with estimate {est!r}, target {ec.target_entropy!r}: descent must move alpha {table[cmp]}", "tanh-Gaussian", {"kind": "temp", "trial": trial})
+        # ... at the default parameter value and at two values of the specification's parameter lattice (kind templa: the whole float32 range)
+        las = [v["par"]["la"] for v in vectors if v["kind"] == "templa"]
+        pick_la = [las[int(i)] for i in rng.integers(0, len(las), size=2)] if las else []
+        for la in [None] + pick_la:
+            la32 = np.float32(0.0) if la is None else la_value(la)
+            am = EntropyCoefficient(jnp.asarray(np.array([la32], dtype=np.float32)))
+            G = grads_of(lambda ms: sac_exploration_loss(ms[0], ec.target_entropy, key, obs, ms[1]), [policy, am], 1)[1]
+            gd = "up" if float(G["log_alpha"][0]) < 0 else ("down" if float(G["log_alpha"][0]) > 0 else "stay")
+            count["temperature gradient sign"] = count.get("temperature gradient sign", 0) + 1
+            if gd != table[cmp]:
+                report("sac_exploration_loss:real:direction", f"sac_exploration_loss (tanh-Gaussian head) at log_alpha = {float(la32)!r}: d loss / d log_alpha = {float(G['log_alpha'][0])!r} with estimate {est!r}, target {ec.target_entropy!r}: descent must move alpha {table[cmp]}", "tanh-Gaussian", {"kind": "temp", "trial": trial})
     stats["real"] = count
     return sum(count.values())
 
@@ -1522,6 +1684,185 @@ def epochs_binding_canary(rep, vectors, failed):
         raise tlc.MachineryError(f"epochs binding canary: a corrupted step coefficient was not noticed; got {[x['key'] for x in scratch.violations]}")
 
 
+# ----------------------------------------------------------------- the temperature over a history of updates (spec/ActorTemp.tla)
+HIST_INVS = ["HTypeOK", "HistDirection", "HistMomentum", "AlphaFollows"]
+HIST = "_update_entropy_coefficient:history"
+CTRL = "EntropyControl.update"
+
+
+def canon_hist(vec):
+    return json.dumps(["temphist", vec["par"], [h["tgt"] for h in vec["hist"]]], sort_keys=True)
+
+
+def run_hist(vec, fill_seed):
+    """One LIVE temperature parameter driven through the history of ActorTemp.tla.  mode 'sgd': EntropyCoefficient(la0) and one plain-SGD
+    optimiser (step size 2^lre from TLC) through the real _update_entropy_coefficient; mode 'control': the real EntropyControl (its own Adam,
+    learning rate 2^lre) through EntropyControl.update with target_entropy set per update.  Returns the recorded steps
+    [{la_before, la_after, loss, alpha_before, alpha}] (projection of the real objects) and whether the policy stayed bit-identical."""
+    jax, jnp, nnx = _lazy()
+    import gymnasium as gym
+    from rl_blox.algorithm.sac import EntropyCoefficient, EntropyControl, _update_entropy_coefficient
+
+    from .. import stubs_actor as SA
+
+    rng = np.random.default_rng(list(fill_seed))
+    par, rows = vec["par"], vec["rows"]
+    n = len(rows)
+    S = n + 1
+    act = fill(rng, (S, 1))
+    cv = fill(rng, (1,))
+    lp = fill(rng, (S,))
+    for i, r in enumerate(rows):
+        lp[i] = np.float32(fl(r["lp"]) - float(act[i, 0]) * float(cv[0]))
+    pol = SA.TablePolicy(lp, cv, fill(rng, (S,)), act, fill(rng, (S, 1)))
+    obs = jnp.asarray(stubs.onehot(np.arange(n), S))
+    key = jax.random.key(int(rng.integers(1 << 30)))
+    before = leafdict(nnx.state(pol))
+    lr = math.ldexp(1.0, int(par["lre"]))
+    one = lambda x: float(np.asarray(x, dtype=np.float32).reshape(-1)[0])  # noqa: E731
+    steps = []
+    if par["mode"] == "sgd":
+        ec = EntropyCoefficient(jnp.asarray(np.array([la_value(par["la0"])], dtype=np.float32)))
+        opt = _sgd(ec, lr)
+        la_of = lambda: one(ec.log_alpha.value)  # noqa: E731
+        a_prev = one(ec())
+        for h in vec["hist"]:
+            la_b = la_of()
+            loss, alpha = _update_entropy_coefficient(opt, pol, jnp.asarray(np.float32(fl(h["tgt"]))), key, obs, ec)
+            steps.append(dict(la_before=la_b, la_after=la_of(), loss=np.asarray(loss).tolist(), alpha_before=a_prev, alpha=one(alpha)))
+            a_prev = one(alpha)
+    else:
+        class _Env:
+            action_space = gym.spaces.Box(low=np.array([-2.0], dtype=np.float32), high=np.array([2.0], dtype=np.float32))
+
+        ctl = EntropyControl(_Env(), 1.0, True, lr)
+        param = getattr(getattr(ctl, "_alpha", None), "log_alpha", None)  # projection: the parameter behind alpha_
+        la_of = (lambda: one(param.value)) if param is not None else (lambda: None)
+        a_prev = one(ctl.alpha_)
+        for h in vec["hist"]:
+            ctl.target_entropy = fl(h["tgt"])
+            la_b = la_of()
+            loss = ctl.update(pol, obs, key)
+            steps.append(dict(la_before=la_b, la_after=la_of(), loss=np.asarray(loss).tolist(), alpha_before=a_prev, alpha=one(ctl.alpha_)))
+            a_prev = one(ctl.alpha_)
+    after = leafdict(nnx.state(pol))
+    return steps, all(before[kk].tobytes() == after[kk].tobytes() for kk in before)
+
+
+def check_hist(vec, steps, untouched, rep, stats, fill_seed):
+    """Every update of the history against ActorTemp.tla: direction from TLC; loss / step as the linear forms c_t x Exp(log_alpha_t),
+    lr x gc_t x Exp(log_alpha_t) with TLC's coefficients and Exp at the parameter the update found; alpha = Exp(log_alpha) after it."""
+    par = vec["par"]
+    sgd = par["mode"] == "sgd"
+    name = HIST if sgd else CTRL
+    lr = math.ldexp(1.0, int(par["lre"]))
+    ok = True
+
+    def info(t):
+        return {"vec": vec, "fill_seed": list(fill_seed), "level": "hist", "update": t}
+
+    def ctx(t):
+        return (f"({'EntropyCoefficient(log_alpha = ' + repr(float(la_value(par['la0']))) + ') + SGD(lr=2^' + str(par['lre']) + ') through _update_entropy_coefficient' if sgd else 'EntropyControl(learning_rate=' + repr(lr) + ') through update'}; "
+                f"update {t} of {len(vec['hist'])}; entropy estimate {fq(vec['est'])}, targets {[str(fq(h['tgt'])) for h in vec['hist']]}, log_alpha before each update {[s['la_before'] for s in steps]})")
+
+    if not untouched:
+        ok = False
+        rep.violation("_update_entropy_coefficient:moves:actor", f"a temperature update changed the policy {ctx(len(steps))}", info(len(steps)))
+    for t, (h, o) in enumerate(zip(vec["hist"], steps), start=1):
+        stats["hist_steps"] = stats.get("hist_steps", 0) + 1
+        eu = int(h["expulp"])
+        la_b, la_a = o["la_before"], o["la_after"]
+        if la_b is not None and abs(la_b) > 2.0:
+            stats["hist_far"] = stats.get("hist_far", 0) + 1
+        if la_b is not None and math.isfinite(la_b) and abs(la_b) < 87.0:
+            ax = exp_atom(la_b)
+            mag = fl(h["mag"]) * ax
+            if np.shape(o["loss"]) != () or not val_ok(o["loss"], fq(h["c"]) * Fraction(ax), ULP_INEXACT, mag):
+                ok = False
+                rep.violation(f"{name}:loss", f"returned temperature loss {o['loss']!r}; specification {fq(h['c'])} x exp(log_alpha = {la_b!r}) = {float(fq(h['c'])) * ax!r} {ctx(t)}", info(t))
+            if sgd:
+                want = lr * float(fq(h["gc"])) * ax
+                tol = ULP_INEXACT * spacing32(lr * mag) + spacing32(abs(la_b) + abs(want))
+                if not (math.isfinite(la_a) and abs((la_b - la_a) - want) <= tol):
+                    ok = False
+                    rep.violation(f"{name}:step", f"log_alpha moved by {la_a - la_b!r} ({la_b!r} -> {la_a!r}); specification -lr x {fq(h['gc'])} x exp(log_alpha) = {-want!r} {ctx(t)}", info(t))
+        if h["dir"] != "any":
+            d = exact.ord32(o["alpha"]) - exact.ord32(o["alpha_before"]) if math.isfinite(o["alpha"]) and math.isfinite(o["alpha_before"]) else (1 if o["alpha"] > o["alpha_before"] else -1)
+            dira = "up" if d > eu else ("down" if d < -eu else "stay")
+            dirn = dira if la_b is None else ("up" if la_a > la_b else ("down" if la_a < la_b else "stay"))
+            if dira != h["dir"] or dirn != h["dir"]:
+                ok = False
+                rep.violation(f"{name}:direction", f"entropy estimate {fq(vec['est'])}, target {fq(h['tgt'])}"
+                              + (f" (first moment of Adam has the sign of the gradients seen so far: {h['msign']})" if not sgd else "")
+                              + f": alpha must go {h['dir']}; log_alpha went {dirn} ({la_b!r} -> {la_a!r}), alpha went {dira} ({o['alpha_before']!r} -> {o['alpha']!r}) {ctx(t)}", info(t))
+        if la_a is not None and math.isfinite(la_a) and abs(la_a) < 87.0 and not within_ulps32(o["alpha"], exp_atom(la_a), eu):
+            ok = False
+            rep.violation(ALPHA_KEY if sgd else f"{name}:alpha", f"alpha = {o['alpha']!r} after the update with log_alpha = {la_a!r}; specification alpha = exp(log_alpha) = {exp_atom(la_a)!r} {ctx(t)}", info(t))
+    return ok
+
+
+def select_hist(rep, vectors, quick):
+    """Histories replayed: 'sgd' all (quick: those of length 3 - every start value, every sequence of below / at / above target); 'control' is one
+    compilation per EntropyControl object: the same-sign histories (alpha must keep moving) of every learning rate and a seeded sample of the rest."""
+    rng = np.random.default_rng([rep.seed, 1219])
+    sgd = [v for v in vectors if v["par"]["mode"] == "sgd" and (not quick or v["par"]["H"] == 3)]
+    ctl = [v for v in vectors if v["par"]["mode"] == "control"]
+    same = [v for v in ctl if len({h["gsign"] for h in v["hist"]}) == 1 and v["hist"][0]["gsign"] != 0 and v["par"]["H"] == max(u["par"]["H"] for u in ctl)]
+    rest = [v for v in ctl if v not in same and any(h["dir"] not in ("any", "stay") for h in v["hist"])]
+    idx = rng.permutation(len(rest))[: 4 if quick else 40]
+    return sgd, same + [rest[i] for i in idx]
+
+
+def evaluate_hist(rep, vectors, stats):
+    total = 0
+    for vi, vec in enumerate(vectors):
+        fs = (rep.seed, 1220, vi)
+        try:
+            steps, untouched = run_hist(vec, fs)
+        except tlc.MachineryError:
+            raise
+        except Exception as ex:  # raised by the code under test
+            msg = f"{type(ex).__name__}: {str(ex).splitlines()[0][:200] if str(ex) else ''}"
+            stats["failed"].add(canon_hist(vec))
+            rep.violation(f"{HIST if vec['par']['mode'] == 'sgd' else CTRL}:exception", f"a temperature update raised {msg} where the specification defines a result (par {vec['par']})",
+                          {"vec": vec, "fill_seed": list(fs), "level": "hist", "traceback": traceback.format_exc()[-1500:]})
+            continue
+        total += len(steps)
+        stats["hist_runs"] = stats.get("hist_runs", 0) + 1
+        stats.setdefault("hist_modes", {}).setdefault(vec["par"]["mode"], 0)
+        stats["hist_modes"][vec["par"]["mode"]] += 1
+        if not check_hist(vec, steps, untouched, rep, stats, fs):
+            stats["failed"].add(canon_hist(vec))
+    return total
+
+
+def hist_binding_canary(rep, vectors, failed):
+    """A recorded history in which (1) the parameter did not move where TLC says 'up' / 'down', (2) TLC's step coefficient is corrupted: both must be noticed."""
+    from ..report import Report
+
+    v = next((v for v in vectors if v["par"]["mode"] == "sgd" and canon_hist(v) not in failed and v["hist"][0]["dir"] in ("up", "down")), None)
+    if v is None:
+        if failed:
+            return
+        raise tlc.MachineryError("history binding canary: no sgd history with a decided first update")
+    fs = (rep.seed, 1221, 0)
+    steps, untouched = run_hist(v, fs)
+    frozen = [dict(s) for s in steps]
+    frozen[0]["la_after"] = frozen[0]["la_before"]
+    frozen[0]["alpha"] = frozen[0]["alpha_before"]
+    scratch = Report("C12", rep.tier, rep.seed)
+    check_hist(v, frozen, untouched, scratch, {}, fs)
+    if f"{HIST}:direction" not in [x["key"] for x in scratch.violations]:
+        raise tlc.MachineryError(f"history binding canary: a temperature that did not move was not noticed; got {[x['key'] for x in scratch.violations]}")
+    b = json.loads(json.dumps(v))
+    q = fq(b["hist"][0]["gc"]) * Fraction(17, 16)
+    b["hist"][0]["gc"] = [q.numerator, q.denominator]
+    scratch = Report("C12", rep.tier, rep.seed)
+    check_hist(b, steps, untouched, scratch, {}, fs)
+    if f"{HIST}:step" not in [x["key"] for x in scratch.violations]:
+        raise tlc.MachineryError(f"history binding canary: a corrupted step coefficient was not noticed; got {[x['key'] for x in scratch.violations]}")
+
+
 # ----------------------------------------------------------------- canaries
 CANARIES = [
     ("pgsign", {"pg"}, "PGAscent"),
@@ -1530,6 +1871,7 @@ CANARIES = [
     ("maxclip", {"ppo"}, "PPOClippedZero"),
     ("broadcast", {"ppo"}, "PerSample"),
     ("tempsign", {"temp"}, "TempDirection"),
+    ("tempclip", {"templa"}, "TempLaDirection"),
     ("mindpg", {"td7"}, "DPGAscent"),
 ]
 
@@ -1578,6 +1920,35 @@ def binding_canary(rep, vectors, failed):
         for w in (f"{fname}:loss", f"{fname}:grad:actor"):
             if w not in keys:
                 raise tlc.MachineryError(f"binding canary: corrupted expectation ({w}) not noticed; got {keys}")
+    # the temperature at a parameter value far from 0: a corrupted coefficient of the linear form / a corrupted position of alpha must be noticed
+    v = next((v for v in vectors if v["kind"] == "templa" and v["n"] == 2 and canon(v) not in failed and fq(v["exp"]["galpha"]) != 0 and abs(fq(v["par"]["la"]["a"])) >= 10), None)
+    if v is None and not failed:
+        raise tlc.MachineryError("binding canary: no suitable templa vector")
+    if v is not None:
+        b1 = json.loads(json.dumps(v))
+        b1["exp"]["loss"] = corrupt(b1["exp"]["loss"])
+        b2 = json.loads(json.dumps(v))
+        b2["exp"]["galpha"] = corrupt(b2["exp"]["galpha"])
+        scratch = Report("C12", rep.tier, rep.seed)
+        st = new_stats()
+        evaluate(scratch, [b1, b2], st, upd_every=1)
+        keys = [x["key"] for x in scratch.violations]
+        for w in ("sac_exploration_loss:loss", "sac_exploration_loss:grad:alpha", "_update_entropy_coefficient:step:alpha"):
+            if w not in keys:
+                raise tlc.MachineryError(f"binding canary: corrupted expectation ({w}) not noticed; got {keys}")
+        u = next((u for u in vectors if u["kind"] == "templa" and u["exp"]["arank"] > v["exp"]["arank"] and canon(u) not in failed), None) or \
+            next((u for u in vectors if u["kind"] == "templa" and u["exp"]["arank"] < v["exp"]["arank"] and canon(u) not in failed), None)
+        if u is not None:
+            b3 = json.loads(json.dumps(u))
+            b3["exp"]["arank"], b3["exp"]["rank"] = v["exp"]["arank"], v["exp"]["rank"]
+            b4 = json.loads(json.dumps(v))
+            b4["exp"]["arank"], b4["exp"]["rank"] = u["exp"]["arank"], u["exp"]["rank"]
+            scratch = Report("C12", rep.tier, rep.seed)
+            st = new_stats()
+            evaluate(scratch, [b3, b4], st, upd_every=10**9)
+            check_alpha_order(scratch, st)
+            if f"{ALPHA_KEY}:monotone" not in [x["key"] for x in scratch.violations]:
+                raise tlc.MachineryError(f"binding canary: swapped positions of two alphas not noticed; got {[x['key'] for x in scratch.violations]}")
     # an update that moves a module the specification leaves untouched must be noticed
     v = next((v for v in vectors if v["kind"] == "dpg" and v["n"] == 2 and canon(v) not in failed), None)
     if v is not None:
@@ -1605,7 +1976,7 @@ def run(rep):
     workers = int(os.environ.get("VERIF_TLC_WORKERS", "16"))
     base = dict(EMIT=False, Kinds=set(ALL_KINDS), NSet={1, 2}, LAT="small", DEV="")
     sims = [dict(NSet={2, 4}, LAT="full", num=700 if quick else 16000), dict(NSet={1, 3}, LAT="full", num=250 if quick else 6000)]
-    with ThreadPoolExecutor(max_workers=10 + len(sims)) as pool:
+    with ThreadPoolExecutor(max_workers=16 + len(sims)) as pool:
         can = spec_canaries(pool)
         # 0. update_ppo over several epochs (ActorEpochs.tla): deviation canary, the small lattice exhaustively (invariants + schedules),
         #    seeded random walks over the full lattice; thorough: the full lattice exhaustively for batch sizes 1 (with schedules) and 2
@@ -1619,16 +1990,26 @@ def run(rep):
         if not quick:
             f_epfull1 = pool.submit(tlc.run, "ActorEpochs", tlc.cfg_text(constants=dict(ep0, NSet={1}, KSet={2, 3, 4}, LAT="full"), invariants=EP_INVS), workers=1, tag="actorep-full1", timeout=3000)
             f_epfull2 = pool.submit(tlc.run, "ActorEpochs", tlc.cfg_text(constants=dict(ep0, EMIT=False, LAT="full"), invariants=EP_INVS), workers=workers, tag="actorep-full2", timeout=3000)
+        # 0b. the temperature parameter over a history of updates (ActorTemp.tla): deviation canary, the small lattice exhaustively
+        #     (invariants + histories); thorough: the full lattice exhaustively (invariants) and by seeded random walks (histories)
+        h0 = dict(EMIT=True, LAT="small", HSet={3, 4}, Modes={"sgd", "control"}, DEV="")
+        f_hdev = pool.submit(tlc.run, "ActorTemp", tlc.cfg_text(constants=dict(h0, EMIT=False, HSet={1}, Modes={"sgd"}, DEV="tempclip"), invariants=["HistDirection"]), workers=1, tag="actortemp-clip")
+        f_hsmall = pool.submit(tlc.run, "ActorTemp", tlc.cfg_text(constants=h0, invariants=HIST_INVS), workers=1, tag="actortemp-small", timeout=1500)
+        f_hfull = f_hsim = None
+        if not quick:
+            f_hfull = pool.submit(tlc.run, "ActorTemp", tlc.cfg_text(constants=dict(h0, EMIT=False, LAT="full"), invariants=HIST_INVS), workers=workers, tag="actortemp-full", timeout=3000)
+            f_hsim = pool.submit(tlc.run, "ActorTemp", tlc.cfg_text(constants=dict(h0, LAT="full"), invariants=HIST_INVS), workers=1, simulate="num=800", depth=8,
+                                 seed=rep.seed * 7 + 6, tag="actortemp-sim", timeout=1500)
         # 1. the relational clauses on the model, exhaustive over the small lattice
         f_inv = pool.submit(tlc.run, "Actor", tlc.cfg_text(constants=base, invariants=INVS), workers=workers, tag="actor-inv", timeout=1500)
         # 2. vectors: the same lattice exhaustively, and seeded random walks over the full lattice (invariants checked there too)
         f_gen = pool.submit(tlc.run, "Actor", tlc.cfg_text(constants=dict(base, EMIT=True)), workers=1, tag="actor-gen", timeout=1500)
         f_inv3 = f_full = None
         if not quick:  # the FULL lattice exhaustively for the kinds whose row lattice is small
-            cf = dict(base, EMIT=True, LAT="full", Kinds={"pg", "a2c", "dpg", "td7", "temp", "ppoupd"})
+            cf = dict(base, EMIT=True, LAT="full", Kinds={"pg", "a2c", "dpg", "td7", "temp", "templa", "ppoupd"})
             f_full = pool.submit(tlc.run, "Actor", tlc.cfg_text(constants=cf, invariants=INVS), workers=1, tag="actor-full", timeout=3000)
         if not quick:  # batches of three rows for the kinds whose small row lattice allows it
-            c3 = dict(base, NSet={3}, Kinds={"pg", "a2c", "dpg", "td7", "temp", "ppoupd", "sac"})
+            c3 = dict(base, NSet={3}, Kinds={"pg", "a2c", "dpg", "td7", "temp", "templa", "ppoupd", "sac"})
             f_inv3 = pool.submit(tlc.run, "Actor", tlc.cfg_text(constants=c3, invariants=INVS), workers=workers, tag="actor-inv3", timeout=3000)
         f_sim = []
         for si, s in enumerate(sims):
@@ -1652,17 +2033,24 @@ def run(rep):
         if f_epfull1 is not None:
             ep_res.append(("ActorEpochs full lattice N=1, 2-4 epochs: invariants + schedules", f_epfull1.result()))
             ep_res.append(("ActorEpochs full lattice N=2, 3 epochs: invariants", f_epfull2.result()))
+        hdev = f_hdev.result()
+        if hdev.violated != "HistDirection":
+            raise tlc.MachineryError(f"canary: the clipped parametrisation alpha = exp(clip(log_alpha, -20, 2)) is not refuted by HistDirection (got {hdev.violated})")
+        h_res = [("ActorTemp small lattice, histories of 3-4 updates: invariants + histories", f_hsmall.result())]
+        if f_hfull is not None:
+            h_res.append(("ActorTemp full lattice, histories of 3-4 updates: invariants", f_hfull.result()))
+            h_res.append(("ActorTemp full lattice, random walks: invariants + histories", f_hsim.result()))
     rep.add_tlc(r, "Actor small lattice N in {1,2}: invariants")
     if not r.ok:
         rep.violation(f"spec:Actor:{r.violated}", f"design-level violation of {r.violated}", r.error_trace)
     rep.add_tlc(g, "Actor small lattice: generation")
     if r3 is not None:
-        rep.add_tlc(r3, "Actor small lattice N=3 (pg a2c dpg td7 sac temp ppoupd): invariants")
+        rep.add_tlc(r3, "Actor small lattice N=3 (pg a2c dpg td7 sac temp templa ppoupd): invariants")
         if not r3.ok:
             rep.violation(f"spec:Actor:{r3.violated}", f"design-level violation of {r3.violated} (N=3)", r3.error_trace)
     vectors = list(g.emitted)
     if rf is not None:
-        rep.add_tlc(rf, "Actor full lattice N in {1,2} (pg a2c dpg td7 temp ppoupd): invariants + generation")
+        rep.add_tlc(rf, "Actor full lattice N in {1,2} (pg a2c dpg td7 temp templa ppoupd): invariants + generation")
         if not rf.ok:
             rep.violation(f"spec:Actor:{rf.violated}", f"design-level violation of {rf.violated} (full lattice)", rf.error_trace)
         vectors += rf.emitted
@@ -1685,7 +2073,25 @@ def run(rep):
         raise tlc.MachineryError(f"no vectors generated for {missing}")
     stats = new_stats()
     total = evaluate(rep, uniq, stats, upd_every=3 if quick else 1)
+    check_alpha_order(rep, stats)
     tm["replay"] = round(time.time() - t0, 1)
+    # the temperature parameter over a history of updates
+    h_vecs, h_seen = [], set()
+    for name, hr in h_res:
+        if "random walks" not in name:
+            rep.add_tlc(hr, name)
+        if hr.violated:
+            rep.violation(f"spec:ActorTemp:{hr.violated}", f"design-level violation of {hr.violated} ({name})", hr.error_trace)
+        for v in hr.emitted:
+            kk = canon_hist(v)
+            if kk not in h_seen:
+                h_seen.add(kk)
+                h_vecs.append(v)
+    h_sgd, h_ctl = select_hist(rep, h_vecs, quick)
+    if not all(any(v["hist"][-1]["dir"] == d for v in h_ctl) for d in ("up", "down")) or not h_sgd:
+        raise tlc.MachineryError("temperature histories: no EntropyControl history in both directions / no history on a live EntropyCoefficient")
+    total += evaluate_hist(rep, h_sgd + h_ctl, stats)
+    tm["temperature_histories"] = round(time.time() - t0, 1)
     # update_ppo over several epochs
     ep_vecs, ep_seen = [], set()
     for name, er in ep_res:
@@ -1728,12 +2134,14 @@ def run(rep):
     tm["real_heads"] = round(time.time() - t0, 1)
     binding_canary(rep, uniq, stats["failed"])
     epochs_binding_canary(rep, ep_vecs, stats["failed"])
+    hist_binding_canary(rep, h_sgd, stats["failed"])
     tm["binding_canary"] = round(time.time() - t0, 1)
     rep.extra["cumulative_wall_s"] = tm
 
-    rep.traces = len(uniq) + len(ep_vecs)
+    rep.traces = len(uniq) + len(ep_vecs) + len(h_sgd) + len(h_ctl)
     rep.evaluations = total
-    rep.distinct = sum(1 for v in uniq if nontrivial(v)) + sum(1 for v in ep_vecs if any(any(h["fav"]) or any(h["expo"]) for h in v["hist"]))
+    rep.distinct = (sum(1 for v in uniq if nontrivial(v)) + sum(1 for v in ep_vecs if any(any(h["fav"]) or any(h["expo"]) for h in v["hist"]))
+                    + sum(1 for v in h_sgd + h_ctl if any(h["dir"] in ("up", "down") for h in v["hist"])))
     rep.exhaustive = False
     rep.rule = (
         "TLC enumerates every vector of Actor.tla's small lattice (11 objective kinds, batch size 1-2, curated dyadic values: weights / advantages of both signs and 0, "
@@ -1743,10 +2151,16 @@ def run(rep):
         "(N,1) and (N,), and (kinds with an update function) through one SGD(lr=1) step of the real update. ActorEpochs.tla: TLC enumerates update schedules "
         "(batch size, SGD learning rates of actor and critic, 2-4 epochs, per-sample advantage / value / entropy; small lattice exhaustively, full lattice by seeded random "
         "walks) and emits the expected state after every epoch; update_ppo(epochs=j) is run for j = 1..K from identical entry parameters and compared after every epoch; "
-        "a schedule is non-trivial when some sample is clipped on its favoured side or steps at a ratio other than 1"
+        "a schedule is non-trivial when some sample is clipped on its favoured side or steps at a ratio other than 1. "
+        "Kind templa: the temperature loss as a function of its PARAMETER log_alpha = a + k ln 2 over the float32 range in which alpha is a normal number "
+        "(0, 2.5, 4, 10, 50, -12, -21, -30, -60 and k ln 2 for k = 3, 72, -30, -86 exhaustively; +-80, +-115 ln 2 and more by random walks): value, gradient and SGD step "
+        "are TLC's coefficient times the named constant exp(log_alpha); alpha = 2^k and 'alpha strictly increasing in log_alpha' are order predicates on float32 ordinals. "
+        "ActorTemp.tla: TLC enumerates histories of 3-4 updates (start value, estimate below / at / above target per update) on one live EntropyCoefficient + SGD and on one "
+        "live EntropyControl (Adam); a history is non-trivial when some update must move alpha"
     )
     for kind, pred in (("ppo", lambda v: len({json.dumps(r["ratio"]) for r in v["rows"]}) > 1 and all(fq(r["adv"]) != 0 for r in v["rows"])),
-                       ("reinforce", lambda v: v["par"]["base"] and v["par"]["disc"]), ("sac", lambda v: fq(v["par"]["alpha"]) != 0), ("temp", lambda v: True)):
+                       ("reinforce", lambda v: v["par"]["base"] and v["par"]["disc"]), ("sac", lambda v: fq(v["par"]["alpha"]) != 0), ("temp", lambda v: True),
+                       ("templa", lambda v: abs(fq(v["par"]["la"]["a"])) > 20)):
         cand = [u for u in uniq if u["kind"] == kind and u["n"] == 2 and nontrivial(u) and pred(u)]
         if cand:
             v = cand[len(cand) // 2]
@@ -1757,6 +2171,9 @@ def run(rep):
         samples_with_tied_critics=stats["ties"], real_head_scenarios=stats["real"],
         epoch_schedules=len(ep_vecs), update_ppo_runs_epochs=stats["ep_runs"], epoch_region_histories=sorted(stats["ep_classes"]),
         clipped_sample_epochs=stats["ep_clipped"],
+        temperature_parameter_values=len(stats.get("alpha_ranks", {})), alpha_is_power_of_two_checks=stats.get("alpha_pow2", 0),
+        temperature_histories=stats.get("hist_modes", {}), temperature_history_updates=stats.get("hist_steps", 0),
+        temperature_history_updates_beyond_2=stats.get("hist_far", 0),
     )
     ex = next((v for v in ep_vecs if v["n"] == 2 and {"1uA", "1BB"} <= {region_hist(v, 0), region_hist(v, 1)}), None)
     if ex is not None:
@@ -1773,6 +2190,9 @@ def run(rep):
         "update_ppo over epochs with the repository's own networks (softmax over a shared MLP, Gaussian over tables, rollouts not all terminated): the expectation is ActorEpochs.tla's "
         "schedule executed with the real compute_gae / ppo_loss / optimiser (both sides real code), compared within 16 ulp per epoch of the largest parameter or step",
         "update_critic_and_policy (MR.Q) is not driven; mrq_policy_loss is checked as a function",
+        "temperature at every parameter value: exp(log_alpha) is the named constant of a linear form (its float64 value at the float32 parameter is the harness' only contribution); "
+        "the float32 exponential is given 2 ulp, loss / gradient 8 ulp of alpha x max(|log pi| + |target|); SGD steps use TLC's step size 2^-floor(log_alpha / ln 2) (- 3 in histories) so that "
+        "a step is far above the float32 spacing of log_alpha at every parameter value; EntropyControl (Adam): direction only while all gradients seen agree in sign; |log_alpha| <= 80",
         "trusted: harness/stubs.py, harness/stubs_actor.py, realisation code in c12.py, Exact.tla, TLC",
     ]
 
@@ -1808,6 +2228,27 @@ def replay(path, rep):
         for j, (loss, lv) in enumerate(results, start=1):
             print(f"after {j} epoch(s): loss {float(loss)!r}, log pi - log pi_0 = {(np.asarray(lv[0]['lp'], dtype=np.float64)[: vec['n']] - lp0).tolist()}, critic {np.asarray(lv[1]['kernel']).reshape(-1)[: vec['n']].tolist()}")
         check_epochs(c, results, rep, stats)
+    elif info.get("level") == "hist":
+        fs = tuple(info["fill_seed"])
+        print(f"temperature history ({vec['par']['mode']}): par={vec['par']} estimate={fq(vec['est'])} targets={[str(fq(h['tgt'])) for h in vec['hist']]}")
+        print("expected direction of each update (TLC):", [h["dir"] for h in vec["hist"]], "coefficients of exp(log_alpha) in the gradient:", [str(fq(h["gc"])) for h in vec["hist"]])
+        try:
+            steps, untouched = run_hist(vec, fs)
+        except Exception as ex:
+            print("code under test raised:", type(ex).__name__, str(ex)[:300])
+            print("VIOLATION property=C12 replay=" + path)
+            return 1
+        for t, o in enumerate(steps, start=1):
+            print(f"update {t}: log_alpha {o['la_before']!r} -> {o['la_after']!r}, alpha {o['alpha_before']!r} -> {o['alpha']!r}, loss {o['loss']!r}")
+        check_hist(vec, steps, untouched, rep, stats, fs)
+    elif info.get("level") == "order":
+        print("alpha must be strictly increasing in log_alpha: parameter values", vec["par"]["la"], "(larger) and", info["vec_lo"]["par"]["la"])
+        for v2 in (info["vec_lo"], vec):
+            c = realise(v2, tuple(info["fill_seed"]), "n1")
+            res = run_fn(c)
+            print(f"log_alpha = {c.aux['la']!r}: alpha = {np.asarray(res[0]['alpha']).tolist()!r} (specification exp(log_alpha) = {c.aux['atom']!r})")
+            check_fn(c, res[0], res[1], rep, stats)
+        check_alpha_order(rep, stats)
     elif info.get("level") == "real":
         print("scenario with the repository's own head:", info.get("scenario"), "- re-running all real-head scenarios with seed", info.get("seed"))
         tlc.sany("Actor")
